@@ -274,4 +274,15 @@ def replay(run, payload):
             if i is None:
                 run.fail('oracle', 'not listed', case, key='not-listed')
             return
-        judge(run, scn, meta, res)
+        # as in the main run: the number typed is the number THIS tree prints next to the entry (first pass: empty reply)
+        s1 = copy.deepcopy(scn)
+        s1['steps'][-1]['stdin'] = '\n'
+        r1 = sandbox.execute(s1)
+        i = find_index(r1['steps'][-1]['stdout'], meta['full']) if r1.get('steps') else None
+        print('index of the entry in the listing:', i)
+        if i is None:
+            run.fail('oracle', 'a trashed entry is not offered by trash-restore', case, key='not-listed')
+            return
+        s2 = copy.deepcopy(scn)
+        s2['steps'][-1]['stdin'] = '%d\n' % i
+        judge(run, s2, meta, sandbox.execute(s2))
